@@ -154,7 +154,16 @@ func vfGroupLogRun2(t testing.TB, w *vfRWorld, sc vfScript, kind string) []map[s
 		sort.Strings(dev)
 		adm := map[string]bool{}
 		for _, pk := range m.ListAdmins() {
-			adm[nm(memberName, vfRawPK(pk))] = true
+			// ClaimGroupOwnership announces the claiming DEVICE's key as "member"; name whatever key it is
+			raw := vfRawPK(pk)
+			n := nm(memberName, raw)
+			if n == "?" {
+				n = nm(deviceName, raw)
+			}
+			if n == "?" {
+				n = fmt.Sprintf("?%x", raw[:4])
+			}
+			adm[n] = true
 		}
 		admins := []string{}
 		for k := range adm {
